@@ -256,6 +256,10 @@ Accept(path, m, o) ==
         /\ o.to = e.to /\ o.cc = e.cc /\ o.bcc = e.bcc /\ o.rt = e.rt
         /\ o.date = e.date /\ o.mid = e.mid /\ o.irt = e.irt
         /\ AcceptPlainSeq(path, m, o.plain)
+        \* texts the message keeps in separate parts stay separated (white space between them; a part
+        \* need not end in a line break) -- in the plain body and in the full text
+        /\ \A k \in DOMAIN o.plainsep : o.plainsep[k]
+        /\ \A k \in DOMAIN o.fullsep : o.fullsep[k]
         /\ o.html = e.html
         \* C03 clause for e-mail: one unit of the right body type; full text = that body = join of units
         /\ o.joinok
